@@ -69,6 +69,7 @@ type udpSock struct {
 	cpeer     int         // ... to this peer (index into udpPeers4/6)
 	cport     uint16      // ... and port
 	reads     int
+	cv4       bool   // (dual-stack socket) currently connected to an IPv4 peer through its mapped address
 	lastOut   *Frame // the datagram this socket emitted last (what an ICMP error would quote)
 }
 
@@ -151,7 +152,7 @@ func (w *udpWorld) arrive(si, n, srcSel, flags int, wait bool) {
 	}
 	v6 := s.kind == 4 || (s.kind == 2 && flags&1 != 0)
 	if s.kind == 2 && s.conn {
-		v6 = true // connected to an IPv6 peer
+		v6 = !s.cv4 // connected to an IPv6 peer - or to an IPv4 one
 	}
 	var src, dst tcpip.Address
 	sport := uint16(9000 + (srcSel>>1)%2)
@@ -159,6 +160,25 @@ func (w *udpWorld) arrive(si, n, srcSel, flags int, wait bool) {
 		src, dst = udpPeers6[srcSel%2], A6
 	} else {
 		src, dst = udpPeers4[srcSel%2], A4
+	}
+	if s.conn && flags&64 != 0 && wait {
+		// a stranger: a host or port the socket is not connected to sends to its port - in either address family
+		// where the socket's binding would cover it. A connected socket hears its peer only.
+		w.narr++
+		payload := udpPayload(w.seed, w.narr, 20+n%400)
+		from4, from6, fport := udpPeers4[1-s.cpeer], udpPeers6[1-s.cpeer], uint16(9000+(srcSel>>1)%2)
+		if flags&128 != 0 {
+			from4, from6, fport = udpPeers4[s.cpeer], udpPeers6[s.cpeer], s.cport^1
+		}
+		if s.kind == 3 || (s.kind == 2 && flags&1 == 0) {
+			w.ipid++ // (for a dual-stack socket either family may be the one its connection does not use)
+			w.Inject4(codec.IPv4([]byte(from4), []byte(A4), codec.ProtoUDP, w.ipid, 64, false, false, 0, codec.EncodeUDP([]byte(from4), []byte(A4), fport, s.port, payload)), 0)
+		} else {
+			w.Inject6(codec.IPv6([]byte(from6), []byte(A6), codec.ProtoUDP, 64, codec.EncodeUDP([]byte(from6), []byte(A6), fport, s.port, payload)), 0)
+		}
+		w.Probes["strangers_sending_to_connected_sockets"]++
+		w.Take()
+		return
 	}
 	if s.conn { // connected: only its peer reaches it
 		sport = s.cport
@@ -368,6 +388,9 @@ func (w *udpWorld) write(si, n, dstSel int) {
 		dport = s.cport
 		if v6 {
 			dst = udpPeers6[s.cpeer]
+			if s.cv4 {
+				dst = tcpip.Address("\x00\x00\x00\x00\x00\x00\x00\x00\x00\x00\xff\xff" + string(udpPeers4[s.cpeer]))
+			}
 		} else {
 			dst = udpPeers4[s.cpeer]
 		}
@@ -500,10 +523,18 @@ func (w *udpWorld) apply(s Step) {
 			}
 			p, q := s.B%2, uint16(9000+(s.B>>1)%2)
 			to := tcpip.FullAddress{Addr: udpPeers4[p], Port: q}
+			cv4 := false
 			if sk.kind == 2 || sk.kind == 4 {
 				to.Addr = udpPeers6[p]
+				if sk.kind == 2 && s.B&4 != 0 {
+					// a dual-stack socket connected to an IPv4 peer, named by its mapped address
+					to.Addr = tcpip.Address("\x00\x00\x00\x00\x00\x00\x00\x00\x00\x00\xff\xff" + string(udpPeers4[p]))
+					cv4 = true
+					w.Probes["dual_stack_sockets_connected_to_an_ipv4_peer"]++
+				}
 			}
 			if e := sk.ep.Connect(to); e == nil {
+				sk.cv4 = cv4
 				sk.conn, sk.cpeer, sk.cport = true, p, q
 				w.Probes["reconnects"]++
 			}
@@ -600,16 +631,16 @@ func (w *udpWorld) next() Step {
 	case 12:
 		return Step{Op: "failbind", A: r.Intn(200), B: r.Intn(100)}
 	case 9:
-		return Step{Op: "connect", A: si, B: r.Intn(4)}
+		return Step{Op: "connect", A: si, B: r.Intn(8)}
 	case 10:
 		return Step{Op: "linkfault", A: r.Intn(2)}
 	case 0:
 		if w.YieldP > 0 && r.Chance(0.6) {
-			return Step{Op: "narrive", A: si, B: r.Intn(4), C: r.Intn(64), D: int64(udpLen(r))}
+			return Step{Op: "narrive", A: si, B: r.Intn(4), C: r.Intn(256), D: int64(udpLen(r))}
 		}
-		return Step{Op: "arrive", A: si, B: r.Intn(4), C: r.Intn(64), D: int64(udpLen(r))}
+		return Step{Op: "arrive", A: si, B: r.Intn(4), C: r.Intn(256), D: int64(udpLen(r))}
 	case 1:
-		return Step{Op: "narrive", A: si, B: r.Intn(4), C: r.Intn(64), D: int64(udpLen(r))}
+		return Step{Op: "narrive", A: si, B: r.Intn(4), C: r.Intn(256), D: int64(udpLen(r))}
 	case 2:
 		return Step{Op: "burst", A: si, B: r.Range(2, 40), C: r.Intn(16), D: int64([]int{100, 1000, 2000, 8000}[r.Intn(4)])}
 	case 3:
